@@ -56,7 +56,14 @@ fn encodings_equal(val: &CanonicalJsonValue, want: &[u8], what: &str) -> Result<
     let b = format!("{val}").into_bytes();
     let c = serde_json::to_vec(val).map_err(|e| format!("{what}: serde_json::to_vec failed: {e}"))?;
     let d = serde_json::to_string(val).map_err(|e| format!("{what}: to_string failed: {e}"))?.into_bytes();
-    for (n, got) in [("to_string", &a), ("Display", &b), ("serde_json::to_vec", &c), ("serde_json::to_string", &d)] {
+    // formatting parameters (width, fill, alignment, precision, sign, alternate) must not reach the
+    // canonical string: the canonical form depends on the value only
+    let (w, p) = (want.len() + 7, want.len() / 2);
+    let e = format!("{val:>w$}").into_bytes();
+    let f = format!("{val:*^w$.p$}").into_bytes();
+    let g = format!("{val:#}").into_bytes();
+    let h = format!("{val:+010.3}").into_bytes();
+    for (n, got) in [("to_string", &a), ("Display", &b), ("serde_json::to_vec", &c), ("serde_json::to_string", &d), ("Display with width", &e), ("Display with fill, width and precision", &f), ("alternate Display", &g), ("Display with sign, zero padding and precision", &h)] {
         if got != want {
             return Err(format!("{what}: {n} gives {:?}, the specification prescribes {:?}", show(got), show(want)));
         }
